@@ -405,6 +405,8 @@ def run_check(prop: str, tier: str, seed: int, runs: int | None = None, workers:
         known_lines = []
         known_futs = []
         for j, e in enumerate(known):
+            if not e.get("replay"):
+                continue  # recorded repair without a regression case
             rp = os.path.join(ROOT, e["replay"])
             with open(rp) as f:
                 rf = json.load(f)
